@@ -149,6 +149,10 @@ def run(ctx):
     ctx.notes["translator_validation"] = dict(compared=ncmp, mismatches=len(mism), **extra)
     for m in [m for m in mism if m.get("case", {}).get("method") == "_fit_mle"][:5]:
         ctx.mismatch("generated %s._fit_mle" % m["case"]["cls"], m["what"])
+    sd_bad = D.scipydist_correspondence(ctx, ctx.n(120, 1200), parts=("fit",))
+    ctx.notes["scipydist_correspondence"] = {"mismatches": len(sd_bad)}
+    for b in sd_bad[:5]:
+        ctx.mismatch("ScipyDistribution._fit_mle hand model", b["what"])
     rng = ctx.rng
     notes = {}
     found = 0
